@@ -59,7 +59,8 @@ FiberCfgs == {[BaseFiber EXCEPT !.loss = l, !.lumped = lu, !.raman = r, !.con_in
 Pump(p, f, d) == [power |-> p, frequency |-> f, dir |-> d]
 BaseRFiber == [temperature |-> Num(283, 0), pumps |-> <<Pump(Num(224403, 6), Num(205, -12), "counterprop")>>]
 RFiberCfgs == {[temperature |-> t, pumps |-> p] : t \in {Num(283, 0), Num(28315, 2)},
-                 p \in {<<>>, <<Pump(Num(224403, 6), Num(205, -12), "counterprop")>>,
+                 \* (an empty pump list is not in the vocabulary: YANG cannot tell an empty list from an absent one)
+                 p \in {<<Pump(Num(224403, 6), Num(205, -12), "counterprop")>>,
                         <<Pump(Num(231135123, 9), Num(2010005, -8), "coprop"), Pump(Num(2, 1), Num(2025, -11), "counterprop")>>}}
 
 Oper(g, dp, tt, ov, iv) == [gain_target |-> g, delta_p |-> dp, tilt_target |-> tt, out_voa |-> ov, in_voa |-> iv]
